@@ -204,6 +204,41 @@ def _run_main(ctx):
             ctx.violate(case, "graph-level interface does not mirror the Input/Output children",
                         {"site": "NIRGraph", "after": "from_list", "attr": d[0][-1], "family": "untyped-tail"},
                         observed=[list(x) for x in d[:4]])
+    # an interface handed to the constructor (keywords) or carried by a dictionary (top level or on a nested graph child):
+    # after construction the interface is the mirror of the children, whatever was handed over
+    for _ in range(ctx.n(40, 160)):
+        n_in = rng.randrange(1, 3)
+        shapes = [[rng.randrange(1, 6) for _ in range(rng.randrange(1, 3))] for _ in range(n_in)]
+        mk = lambda: ({f"i{j}": nir.Input(np.array(sh)) for j, sh in enumerate(shapes)},
+                      {f"o{j}": nir.Output(np.array(sh)) for j, sh in enumerate(shapes)})
+        stale_in = rng.choice([{"x": np.array([9, 9])}, {"i0": np.array([7])}, {}, {"i0": np.array(shapes[0]), "ghost": np.array([1])}])
+        stale_out = rng.choice([{"y": np.array([9])}, {"o0": np.array([3, 3, 3])}, {}])
+        how = rng.choice(["kwargs", "dict", "nested_dict", "kwargs_in_only"])
+        case = {"op": "interface_handed_over", "how": how, "shapes": shapes, "stale_in": sorted(stale_in), "stale_out": sorted(stale_out)}
+        ctx.case(case); ctx.count("interface_handed_over_" + how)
+        ins, outs = mk()
+        edges = [(f"i{j}", f"o{j}") for j in range(n_in)]
+        try:
+            if how == "kwargs":
+                g = nir.NIRGraph(nodes={**ins, **outs}, edges=edges, input_type=stale_in, output_type=stale_out)
+            elif how == "kwargs_in_only":
+                g = nir.NIRGraph(nodes={**ins, **outs}, edges=edges, input_type=stale_in)
+            else:
+                d = nir.NIRGraph(nodes={**ins, **outs}, edges=edges).to_dict()
+                d["input_type"] = stale_in; d["output_type"] = stale_out
+                if how == "nested_dict":
+                    outer = nir.NIRGraph(nodes={"a": nir.Input(np.array(shapes[0])), "sub": nir.NIRGraph(nodes={}, edges=[])},
+                                         edges=[]).to_dict()
+                    outer["nodes"]["sub"] = d
+                    d = outer
+                g = nir.NIRGraph.from_dict(d)
+        except Exception:
+            ctx.count("construct_rejected"); continue
+        dfs = mirror_defects(g)
+        if dfs:
+            ctx.violate(case, "graph-level interface does not mirror the Input/Output children (an interface was handed over at construction)",
+                        {"site": "NIRGraph", "after": "construction", "attr": dfs[0][-1], "family": "interface-handed-over"},
+                        observed=[list(x) for x in dfs[:4]])
     ctx.compare("graphs", cases, obs, reqs)
 
 
